@@ -665,11 +665,17 @@ pub fn build_default_config(conf: &crate::config::Config, request: &DHCPRequest)
             if let super::config::Prefix::V4(p4) = prefix {
                 use crate::config::Match as _;
                 use crate::config::PrefixOps as _;
+                /* A prefix shorter than /8 is not a LAN to hand addresses out on, and its host
+                 * range cannot be held as a pool (the size of a /0 does not fit in 32 bits).
+                 */
+                if p4.prefixlen < 8 {
+                    return None;
+                }
                 let subnet = erbium_net::Ipv4Subnet::new(p4.network(), p4.prefixlen).ok()?;
                 let mut ret = config::Policy {
                     match_subnet: Some(subnet),
                     apply_address: Some(
-                        (1..((1 << (32 - p4.prefixlen)) - 1))
+                        (1..((1_u32 << (32 - p4.prefixlen)) - 1))
                             .map(|offset| (u32::from(subnet.network()) + offset).into())
                             // TODO: This removes one IP from the list, it should also remove any
                             // others found on the local machine.  Probably fine for now, but
